@@ -59,8 +59,23 @@ impl Read for Script {
 }
 
 fn parse_frame(wire: Vec<u8>) -> Option<Frame> {
-    let io = Script { parts: vec![b"OK MPD 0.23.5\n".to_vec(), wire], idx: 0, off: 0 };
+    // history that must be irrelevant: for every other op the connection has first answered another
+    // command with some output followed by an ACK (MPD streams listings, so that is legal); the
+    // listing that follows must decode as on a fresh connection
+    let stale = wire.len() % 2 == 0;
+    let mut data = Vec::new();
+    if stale {
+        data.extend_from_slice(b"file: stale/gone.flac\nTitle: stale\nACK [50@0] {listplaylistinfo} No such playlist\n");
+    }
+    data.extend_from_slice(&wire);
+    let io = Script { parts: vec![b"OK MPD 0.23.5\n".to_vec(), data], idx: 0, off: 0 };
     let mut c = Connection::connect(io).ok()?;
+    if stale {
+        let first = c.receive().ok()??;
+        if !first.is_error() {
+            return None;
+        }
+    }
     let r = c.receive().ok()??;
     r.into_single_frame().ok()
 }
@@ -105,6 +120,25 @@ fn fmt_dur_opt(d: Option<std::time::Duration>) -> String {
 fn fmt_song(s: &Song) -> String {
     let mut tags: Vec<(Vec<u8>, &Vec<String>)> = s.tags.iter().map(|(t, v)| (tag_name(t), v)).collect();
     tags.sort();
+    // the map must be usable with every spelling of a key that `Tag` documents as equal: the tag
+    // parsed from the name, and the catch-all variant holding the same name
+    let mut lookup_bad = Vec::new();
+    for (t, v) in s.tags.iter() {
+        let name = String::from_utf8(tag_name(t)).unwrap();
+        let other = mpd_client::tag::Tag::Other(name.clone().into_boxed_str());
+        if s.tags.get(&other) != Some(v) {
+            lookup_bad.push(format!("other:{name}"));
+        }
+        if let Ok(parsed) = mpd_client::tag::Tag::try_from(name.as_str()) {
+            if s.tags.get(&parsed) != Some(v) {
+                lookup_bad.push(format!("parsed:{name}"));
+            }
+        }
+    }
+    if !lookup_bad.is_empty() {
+        lookup_bad.sort();
+        return format!("LOOKUP-INCONSISTENT[{}]", lookup_bad.join(","));
+    }
     let t = if tags.is_empty() {
         "_".to_string()
     } else {
